@@ -148,7 +148,7 @@ structure Obs (α : Type) where
   unit : Option String
   data : List α
   gets : List (Option (Nat × View α))
-deriving Repr
+deriving Repr, DecidableEq
 
 /-- the getters of a descriptor the client expects, given the array fields -/
 def viewD (env : Env α) (label unit : Option String) (data : List α) (d : Desc α) : View α :=
